@@ -632,6 +632,7 @@ pub(crate) async fn do_commit_detached_transaction(
                     commit_handler,
                     &dataset.base,
                     version,
+                    dataset.manifest.as_ref(),
                     write_config,
                     &transaction_file,
                 )
@@ -821,6 +822,7 @@ pub(crate) async fn commit_transaction(
                     commit_handler,
                     &dataset.base,
                     version,
+                    dataset.manifest.as_ref(),
                     write_config,
                     &transaction_file,
                 )
